@@ -38,6 +38,8 @@ pub struct ResumeLcInfo {
     pub id: LifecycleId,
     max_timestamp_us: u64,
     start_time: u64,
+    /// the start time the resumed lifecycle is listed with (its own [Lifecycle::resume_start_time()])
+    listed_start_time: u64,
 }
 
 #[derive(Debug, Clone)]
@@ -154,9 +156,10 @@ impl Lifecycle {
     /// where resumes are e.g. detected due to a small log gap
     pub fn resume_start_time(&self) -> u64 {
         if let Some(resume_lc) = &self.resume_lc {
-            if self.start_time <= resume_lc.start_time {
+            // the resumed lifecycle might be a resume lifecycle itself that is listed later than its own start time.
+            if self.start_time <= resume_lc.listed_start_time {
                 // we enforce that the start time of a resume lifecycle is always later than from the resumed one
-                return resume_lc.start_time + 1;
+                return resume_lc.listed_start_time + 1;
             }
         }
         self.start_time
@@ -476,6 +479,7 @@ impl Lifecycle {
                     id: self.id,
                     start_time: self.start_time,
                     max_timestamp_us: self.max_timestamp_us,
+                    listed_start_time: self.resume_start_time(),
                 });
             }
             Some(lc)
